@@ -175,7 +175,7 @@ static Result run_case(const Case &c) {
     }
     mtbl_reader_destroy(&o.rd);
     close(o.fd);
-  });
+  }, c.enum_pairs ? 900 : 0);  // an enumeration case runs ~40 000 histories in one child
 }
 
 // deterministic family of small tables for the exhaustive (position, target) tier
